@@ -453,8 +453,9 @@ Theorem C03_without_item_copy_on_write :
 Proof. exact without_item_cow. Qed.
 
 (* ---------------- 8. constructor, del, reset_<a> (OwnInit.v) ----------------
-   ctor_class: a flat class with its own metadata, no spec parent, no __post_init__, leaf
-   attributes whose default is a non-reference or a factory of scalars.  The keyword values are
+   ctor_class: a flat class (or a plain subclass of one, possibly overriding scalar defaults)
+   without spec parent, leaf attributes whose default is a non-reference or a factory of
+   scalars, __post_init__ (if any) a quiet callback.  The keyword values are
    copied by InitMethod (protect_via_deepcopy), so they need not be fresh: it is enough that
    they are flat (a non-reference, or a container of non-references). *)
 Theorem C03_constructor_preserves_owned :
@@ -755,6 +756,19 @@ Example C03_invalidation_example :
    ti_b exCT3 (heap (fst (run_hist exCT3 (mkst exH3 0 None) [VRef 0] ops))) = true).
 Proof. vm_compute. repeat split. Qed.
 
+(* a plain subclass (class 2 uses the metadata of class 1) overriding the default of x *)
+Definition exCT4 : ctable :=
+  [mkcls 1 [exA1; exA50] false false None [1] 1 [] None None;
+   mkcls 2 [exA1; exA50] false false None [1] 1 [(1, VInt 7%Z)] None None].
+Example C03_plain_subclass_example :
+  let h := [OList [VInt 5%Z]] in
+  inval_ok_b exCT4 = true /\ no_reserved_b exCT4 = true /\
+  owned_opi_b exCT4 h [] (OpConstruct 2 None [(50, VRef 0)]) = true /\
+  (let r := step exCT4 [] (OpConstruct 2 None [(50, VRef 0)]) (mkst h 0 None) in
+   fst r = Ok (VRef 1) /\ nth_error (heap (snd r)) 1 = Some (OInst 2 [(1, VInt 7%Z); (50, VRef 2)]) /\
+   owned_b exCT4 (heap (snd r)) = true /\ ti_b exCT4 (heap (snd r)) = true).
+Proof. vm_compute. repeat split. Qed.
+
 Print Assumptions C03_checked_before_stored.
 Print Assumptions C03_bad_value_rejected.
 Print Assumptions C03_bad_element_rejected.
@@ -813,3 +827,4 @@ Print Assumptions C03_step_preserves_owned_partial.
 Print Assumptions C03_history_preserves_owned.
 Print Assumptions C03_owned_guards_hold.
 Print Assumptions C03_invalidation_example.
+Print Assumptions C03_plain_subclass_example.
